@@ -25,6 +25,7 @@ class Program:
     dt: str = "dt"
     ident_safe: bool = True
     note: str = ""
+    state_only: bool = False  # covariance obligations are skipped in C04 (stated there)
 
     # ---- name layout computed by the harness itself (not read from formak objects)
     def s_state(self):
@@ -518,6 +519,27 @@ def P23():
     )
 
 
+def P24():
+    """Physically tiny coefficients (6.674e-11, 3e-13, 4e-17) on terms that matter for large states, and a gain that is
+    almost but not exactly one: invisible at O(1) inputs, decisive at 1e5..1e6."""
+    a, b, g, dt = V("a"), V("b"), V("g"), V("dt")
+    return Program(
+        id="P24-tiny-coefficients",
+        state=["a", "b"],
+        control=["g"],
+        calibration=[],
+        update={
+            "a": C(1.0000000004) * a + C(6.674e-11) * b * b * dt + C(3e-13) * a * a * a * dt,
+            "b": b + C(4e-17) * a * a * b * b * dt + g * dt,
+        },
+        process_noise={"g": 0.25},
+        sensors={"s": {"p": C(4e-17) * a * a * a + b, "q": a * C(3e-13) * b * b + a}},
+        sensor_noise={"s": {"p": 0.5, "q": 0.25}},
+        note="coefficients 1.0000000004, 6.674e-11, 3e-13, 4e-17",
+        state_only=True,
+    )
+
+
 def quick_programs():
     return [P1(), P3(), P8()]
 
@@ -528,7 +550,7 @@ def all_fixed():
 
 def catalogue():
     """Every fixed program, including the model-level-only ones (replay looks programs up by id here)."""
-    return all_fixed() + [P11(), P18(), P21(), P22(), P23()]
+    return all_fixed() + [P11(), P18(), P21(), P22(), P23(), P24()]
 
 
 def with_noise(p, process=None, sensor=None, pid=None):
